@@ -36,6 +36,8 @@ func witnesses() []WitnessCase {
 		{ID: fLeadingSleep, Scen: &ScenCase{Kind: "grpc", Syntax: "yaml", Passes: 1, Origin: "witness", MustReject: "the request list starts with sleep()",
 			Text: []byte("calls:\n  - name: c\n    call: target.TargetService.Hello\n    payload: '{}'\nscenarios:\n  - name: s\n    requests: [\"sleep(5)\", c]\n")}},
 		{ID: fXpathNonNodeSet, Parser: &ParserCase{Target: "xpath", Origin: "witness", In: []byte("count(//div)"), Body: []byte("<div></div>")}},
+		{ID: fXpathEval, Parser: &ParserCase{Target: "xpath", Origin: "witness", In: []byte("number('x')"), Body: []byte("<div></div>")}},
+		{ID: fXpathEval, Parser: &ParserCase{Target: "xpath", Origin: "witness", In: []byte("1 - //a/@href"), Body: []byte("<a href='/x'>l</a>")}},
 		{ID: fPropertyNoKey, Conf: &ConfCase{Base: "witness", MustReject: "the property placeholder has no '#key'", Ops: []string{"nokey@.pools[0].id"},
 			Conf: witnessConf("${property:file}")}},
 		{ID: fNegativeWeight, Scen: &ScenCase{Kind: "http", Syntax: "yaml", Passes: 1, Origin: "witness",
@@ -47,7 +49,8 @@ func witnesses() []WitnessCase {
 		{ID: fHugeStepCount, Scen: &ScenCase{Kind: "http", Syntax: "yaml", Passes: 1, Origin: "witness",
 			Text: []byte(scenReq + "scenarios:\n  - name: s\n    requests: [\"r(1000000)\"]\n")}},
 		{ID: fHugeWeight, Scen: &ScenCase{Kind: "http", Syntax: "yaml", Passes: 1, Origin: "witness",
-			Text: []byte(scenReq + "scenarios:\n  - name: a\n    weight: 70000000\n    requests: [r]\n  - name: b\n    weight: 1\n    requests: [r]\n")}},
+			Text: []byte(scenReq + "scenarios:\n  - name: a\n    weight: 40000000\n    requests: [r]\n  - name: b\n    weight: 1\n    requests: [r]\n")}},
+		{ID: fStepHuge, Conf: &ConfCase{Base: "witness", Ops: []string{"wrong_type@.pools[0].rps.to"}, Conf: witnessStepConf()}},
 		{ID: fGrpcEmptySpin, Ammo: &AmmoCase{Format: fmtGRPC, Mode: "bytes", Origin: "witness", Data: []byte(""), Limit: 5, Passes: 0}},
 		{ID: fRawLastLine, Ammo: &AmmoCase{Format: "raw", Mode: "meta", Origin: "meta", Valid: &rawV, Garbage: "abc", MustReject: true, Passes: 1,
 			Data: append(rawV.Render(), "abc"...)}},
@@ -62,6 +65,15 @@ func witnessConf(id string) map[string]any {
 		panic(err)
 	}
 	conf["pools"].([]any)[0].(map[string]any)["id"] = id
+	return jsonNorm(conf)
+}
+
+func witnessStepConf() map[string]any {
+	conf, err := yamlToConf([]byte(baseConfigs["grpc_json"]))
+	if err != nil {
+		panic(err)
+	}
+	conf["pools"].([]any)[0].(map[string]any)["rps"].(map[string]any)["to"] = float64(99999999999)
 	return jsonNorm(conf)
 }
 
